@@ -41,6 +41,12 @@
 (*         object would conform, nil does not).  The ID is looked up first: an  *)
 (*         undeclared ID is an "invalidoutput" error WHATEVER the data is.      *)
 (*                                                                             *)
+(* Every step (and its signal) carries a display of one of DisplayShapes: none *)
+(* at all, a name only, a description only, an icon only, all three.  It is    *)
+(* documentation: no action reads it and Expected has no display argument -    *)
+(* DisplayBlind: the outcome of every call, unknown step and signal IDs        *)
+(* included, is the same for every display shape of every step.                *)
+(*                                                                             *)
 (* One action per stage of the code:                                           *)
 (*   Begin -> Lookup -> UnserializeInput -> Setup (SetupHit | InitBegin,       *)
 (*   InitEnd: the critical section of setupStepData under initializerMutex,    *)
@@ -60,6 +66,7 @@ CONSTANTS StepIds,      \* declared step IDs
           NP            \* number of calling goroutines
 
 Procs == 1..NP
+DisplayShapes == {"none", "name", "description", "icon", "all"}
 NoStep == "nostep"
 SigId == "sig"
 NoSig == "nosig"
@@ -82,6 +89,7 @@ ASSUME /\ {<<t[2], t[3]>> : t \in BehTab} = OutIdClasses \X OutDataClasses
        /\ Cardinality(Behs) = Cardinality(OutIdClasses) * Cardinality(OutDataClasses)
 
 VARIABLES call,       \* proc -> call record (fixed by Init)
+          display,    \* step -> display shape of the step and of its signal (fixed by Init; documentation only)
           pc,         \* proc -> control point
           arg,        \* proc -> unserialized input ("none" before)
           mutex,      \* step -> proc holding initializerMutex, 0 = free
@@ -91,7 +99,7 @@ VARIABLES call,       \* proc -> call record (fixed by Init)
           ledger,     \* sequence of handler invocations
           res         \* proc -> outcome record
 
-vars == <<call, pc, arg, mutex, created, stepData, initCount, ledger, res>>
+vars == <<call, display, pc, arg, mutex, created, stepData, initCount, ledger, res>>
 
 ---------------------------------------------------------------------------
 (* The contract as operators *)
@@ -132,8 +140,9 @@ Expected(c) ==
 ---------------------------------------------------------------------------
 (* Initial state for a given call vector *)
 
-InitWith(cv) ==
+InitWith(cv, d) ==
     /\ call = cv
+    /\ display = d
     /\ pc = [p \in Procs |-> "idle"]
     /\ arg = [p \in Procs |-> "none"]
     /\ mutex = [s \in StepIds |-> 0]
@@ -157,7 +166,7 @@ Fail(p, cl) == /\ Goto(p, "ret")
 Begin(p) ==
     /\ pc[p] = "idle"
     /\ Goto(p, "lookup")
-    /\ UNCHANGED <<call, arg, mutex, created, stepData, initCount, ledger, res>>
+    /\ UNCHANGED <<call, display, arg, mutex, created, stepData, initCount, ledger, res>>
 
 \* s.StepsValue[stepID]; for signals additionally SignalHandlers()[signalID]
 Lookup(p) ==
@@ -165,7 +174,7 @@ Lookup(p) ==
     /\ IF ~StepKnown(call[p]) THEN Fail(p, "badarg")
        ELSE IF ~SigKnown(call[p]) THEN Fail(p, "error")      \* an error, never a panic
        ELSE Goto(p, "unser") /\ UNCHANGED res
-    /\ UNCHANGED <<call, arg, mutex, created, stepData, initCount, ledger>>
+    /\ UNCHANGED <<call, display, arg, mutex, created, stepData, initCount, ledger>>
 
 \* step.Input().Unserialize / signal.DataSchema().Unserialize
 UnserializeInput(p) ==
@@ -176,7 +185,7 @@ UnserializeInput(p) ==
                     /\ UNCHANGED res
        ELSE /\ Fail(p, "invalidinput")                        \* handler NOT invoked
             /\ UNCHANGED arg
-    /\ UNCHANGED <<call, mutex, created, stepData, initCount, ledger>>
+    /\ UNCHANGED <<call, display, mutex, created, stepData, initCount, ledger>>
 
 \* setupStepData, data already there: lock, look up, unlock
 SetupHit(p) ==
@@ -184,7 +193,7 @@ SetupHit(p) ==
     /\ mutex[S(p)] = 0
     /\ created[S(p)][R(p)]
     /\ Goto(p, "invoke")
-    /\ UNCHANGED <<call, arg, mutex, created, stepData, initCount, ledger, res>>
+    /\ UNCHANGED <<call, display, arg, mutex, created, stepData, initCount, ledger, res>>
 
 \* setupStepData, first arrival for this run: lock, miss, the initializer starts (mutex held)
 InitBegin(p) ==
@@ -195,7 +204,7 @@ InitBegin(p) ==
     /\ mutex' = [mutex EXCEPT ![S(p)] = p]
     /\ initCount' = [initCount EXCEPT ![S(p)][R(p)] = @ + 1]
     /\ Goto(p, "ininit")
-    /\ UNCHANGED <<call, arg, created, stepData, ledger, res>>
+    /\ UNCHANGED <<call, display, arg, created, stepData, ledger, res>>
 
 \* the initializer returns: store, unlock
 InitEnd(p) ==
@@ -204,7 +213,7 @@ InitEnd(p) ==
     /\ created' = [created EXCEPT ![S(p)][R(p)] = TRUE]
     /\ mutex' = [mutex EXCEPT ![S(p)] = 0]
     /\ Goto(p, "invoke")
-    /\ UNCHANGED <<call, arg, initCount, ledger, res>>
+    /\ UNCHANGED <<call, display, arg, initCount, ledger, res>>
 
 \* setupStepData of a step without initializer, first arrival: lock, miss, store the zero value, unlock
 SetupCreate(p) ==
@@ -214,7 +223,7 @@ SetupCreate(p) ==
     /\ S(p) \in NoInitSteps
     /\ created' = [created EXCEPT ![S(p)][R(p)] = TRUE]
     /\ Goto(p, "invoke")
-    /\ UNCHANGED <<call, arg, mutex, stepData, initCount, ledger, res>>
+    /\ UNCHANGED <<call, display, arg, mutex, stepData, initCount, ledger, res>>
 
 Setup(p) == SetupHit(p) \/ SetupCreate(p) \/ InitBegin(p) \/ InitEnd(p)
 
@@ -224,7 +233,7 @@ InvokeHandler(p) ==
     /\ ledger' = Append(ledger, [p |-> p, kind |-> call[p].kind, step |-> S(p), run |-> R(p),
                                  arg |-> arg[p], data |-> stepData[S(p)][R(p)]])
     /\ Goto(p, "inhandler")
-    /\ UNCHANGED <<call, arg, mutex, created, stepData, initCount, res>>
+    /\ UNCHANGED <<call, display, arg, mutex, created, stepData, initCount, res>>
 
 \* the handler returns (a signal handler returns nothing: the call succeeds)
 HandlerReturn(p) ==
@@ -232,7 +241,7 @@ HandlerReturn(p) ==
     /\ IF IsStep(call[p]) THEN Goto(p, "check") /\ UNCHANGED res
        ELSE /\ Goto(p, "ret")
             /\ res' = [res EXCEPT ![p] = [class |-> "ok", out |-> "", ser |-> "none"]]
-    /\ UNCHANGED <<call, arg, mutex, created, stepData, initCount, ledger>>
+    /\ UNCHANGED <<call, display, arg, mutex, created, stepData, initCount, ledger>>
 
 \* output ID lookup, output Validate, output Serialize
 CheckOutput(p) ==
@@ -242,12 +251,12 @@ CheckOutput(p) ==
        ELSE IF ~Conforms(b) THEN Fail(p, "error")             \* then the declared output's Validate
        ELSE /\ Goto(p, "ret")
             /\ res' = [res EXCEPT ![p] = [class |-> "ok", out |-> OutId(b), ser |-> arg[p]]]
-    /\ UNCHANGED <<call, arg, mutex, created, stepData, initCount, ledger>>
+    /\ UNCHANGED <<call, display, arg, mutex, created, stepData, initCount, ledger>>
 
 Return(p) ==
     /\ pc[p] = "ret"
     /\ Goto(p, "done")
-    /\ UNCHANGED <<call, arg, mutex, created, stepData, initCount, ledger, res>>
+    /\ UNCHANGED <<call, display, arg, mutex, created, stepData, initCount, ledger, res>>
 
 \* the same stages under the names of the two entry points
 CallStepBegin(p)            == IsStep(call[p]) /\ Begin(p)
@@ -301,6 +310,12 @@ ErrorClass ==
     /\ \A p \in Procs : pc[p] \in {"ret", "done"} => res[p] = Expected(call[p])
     /\ \A p \in Procs : res[p].class # "panic"
     /\ Cardinality({"badarg", "invalidinput", "invalidoutput", "ok"}) = 4
+
+\* no outcome depends on the displays: whatever displays Init picked, the operational outcome is the
+\* declarative one, which is a function of the call alone; and no error is a panic
+DisplayBlind ==
+    /\ display \in [StepIds -> DisplayShapes]
+    /\ \A p \in Procs : pc[p] \in {"ret", "done"} => res[p] = Expected(call[p]) /\ res[p].class # "panic"
 
 \* the step data of a run is created at most once, whichever call arrives first, and it is
 \* what every handler invocation of that run sees
